@@ -31,6 +31,19 @@ impl Fs for f64 {
 }
 
 /// algebra of a square matrix type, every spelling of every operation
+/// the same matrix with poisoned hidden lanes where the type has them (Mat3A: each column is a 16-byte register whose fourth lane is not
+/// part of the value): the exact lattice then also decides that no operation lets that lane take part
+trait PoisonCols: Sized { fn poisoned(self) -> Self { self } }
+impl PoisonCols for Mat2 {} impl PoisonCols for Mat3 {} impl PoisonCols for Mat4 {}
+impl PoisonCols for DMat2 {} impl PoisonCols for DMat3 {} impl PoisonCols for DMat4 {}
+impl PoisonCols for Mat3A {
+    fn poisoned(self) -> Self {
+        let c = |v: Vec3A| Vec3A::from_vec4(Vec4::new(v.x, v.y, v.z, hx::fvec::poison()));
+        Mat3A::from_cols(c(self.x_axis), c(self.y_axis), c(self.z_axis))
+    }
+}
+fn poison_cols<M: PoisonCols>(m: M) -> M { m.poisoned() }
+
 trait MA: MT + PartialEq {
     type F: Fs;
     fn of_ints(m: &[i64]) -> Self;
@@ -55,7 +68,7 @@ macro_rules! impl_ma {
     ($M:ident, $S:ident, $N:tt, $mulmat:ident, $addmat:ident, $submat:ident, [$(($V:ident, $mulvec:ident)),+]) => {
         impl MA for $M {
             type F = $S;
-            fn of_ints(m: &[i64]) -> Self { let f: Vec<$S> = m.iter().map(|x| *x as $S).collect(); <$M as MT>::from_flat(&f) }
+            fn of_ints(m: &[i64]) -> Self { let f: Vec<$S> = m.iter().map(|x| *x as $S).collect(); poison_cols(<$M as MT>::from_flat(&f)) }
             fn vals(&self) -> Vec<f64> { self.to_cols_array().iter().map(|x| *x as f64).collect() }
             fn det(&self) -> Vec<(&'static str, f64)> { vec![("determinant", self.determinant() as f64)] }
             fn transpose_(&self) -> Self { self.transpose() }
